@@ -28,3 +28,14 @@ PROPS_ADD = {
         "real": ["embeddedBackend on a real NoKV.DB opened with main.go's options"],
     },
 }
+
+PROPS_ADD["C31"] = {
+    "engine": "redissim", "level": "exploration", "budget": {"quick": 10, "thorough": 600},
+    "title": "The RESP parser is total and allocation-bounded",
+    "technique": "deterministic simulation: seeded byte streams (well-formed array/inline commands, malformed frames, huge and negative declared lengths, truncation) delivered over a pipe with seeded fragmentation, every 2-way split of short streams, pauses and mid-frame EOF, to handleConn (recording stub backend) or to a bare parseRESP loop",
+    "rule": "case = seeded frame list + truncation + delivery plan + mode; per delivery: no panic, handler returns after end of stream, runtime.MemStats.TotalAlloc delta <= 64 x bytes delivered + 64 KiB, replies are well-formed RESP, every leading well-formed command is parsed into exactly the generator's arguments (bare parser: argument lists; handleConn: replies and recorded backend calls); distinct = distinct event-trace hash; non-trivial = the stream contains a malformed/oversized/truncated frame or was delivered in more than one piece",
+    "level_text": "Seeded search over byte streams and fragmentations with a structural oracle. The property quantifies over all byte strings, so it is sampled; frames are built from the grammar's boundary cases rather than from uniform noise.",
+    "note": "Trusted: the client-side RESP decoder of the harness and the TotalAlloc accounting (process-wide counter, read while every other goroutine of the bubble is quiescent). Declared lengths are capped at 2^28 (bulk) and 2^23 (array) so that unfixed code cannot exhaust the machine; raw frames keep longer digit runs only in spellings >= 2^63-1.",
+    "design_ref": "7/C31", "assumptions": E5_ASSUME,
+    "stub": ["redisBackend (recording stub: replies are a pure function of the arguments)"],
+}
